@@ -103,6 +103,8 @@ pub enum WSpec {
 
 #[derive(Clone, Debug, Serialize, Deserialize)]
 pub struct WCase {
+    #[serde(default)]
+    pub shutdown: bool,
     pub vectored: bool,
     pub write_plan: Vec<u16>,
     pub frames: Vec<WSpec>,
@@ -198,7 +200,7 @@ impl Engine for WriteEngine {
         let frames = (0..n).map(|_| gen_wspec(&mut t, &mut mf)).collect();
         let mut t2 = Tape::new(&tapes[1]);
         let np = t2.below(200);
-        WCase { vectored: t2.bool(), write_plan: (0..np).map(|_| t2.u32() as u16).collect(), frames }
+        WCase { shutdown: t2.chance(1, 3), vectored: t2.bool(), write_plan: (0..np).map(|_| t2.u32() as u16).collect(), frames }
     }
     fn rule(&self) -> String {
         "generated frame sequences (8 emit-able types, DATA sizes around the chain thresholds/buffer size/max frame, multi-segment Buf payloads, header lists up to ~600 fields) written through h2's Codec under scripted partial writes/Pending/vectored I/O; reference parser must read back exactly the submitted frames; non-trivial = a short write or Pending hit inside the sequence, a chained DATA payload (≥256 B) or a CONTINUATION".into()
@@ -365,8 +367,19 @@ impl Engine for WriteEngine {
                 return out;
             }
         }
-        drive!(codec.flush(&mut cx), "final flush");
+        if case.shutdown {
+            // close the codec while frames may still be buffered: everything must reach the
+            // transport before poll_shutdown, whatever the write plan does
+            drive!(codec.shutdown(&mut cx), "shutdown");
+            out.label("shutdown-with-buffered-frames");
+        } else {
+            drive!(codec.flush(&mut cx), "final flush");
+        }
         let io = codec.get_mut();
+        if case.shutdown && !io.shutdown_called {
+            out.fail("C12", "codec-write/shutdown", "C12/shutdown-not-forwarded", "Codec::shutdown completed without poll_shutdown on the transport".to_string());
+            return out;
+        }
         if io.short_writes > 0 || io.pendings > 0 {
             out.label("partial-writes");
             out.nontrivial = true;
@@ -585,9 +598,9 @@ fn gen_rframe(t: &mut Tape, max_recv: usize) -> RFrame {
                     .map(|_| match t.below(9) {
                         0 => (1u16, *t.pick(&[0u32, 4096, 1 << 20])),
                         1 => (2, t.below(2) as u32),
-                        2 => (3, t.u32()),
-                        3 => (4, t.below(0x8000_0000) as u32),
-                        4 => (5, 16384 + t.below((1 << 24) - 16384) as u32),
+                        2 => (3, if t.bool() { *t.pick(&[0u32, 1, 100, u32::MAX]) } else { t.u32() }),
+                        3 => (4, if t.bool() { *t.pick(&[0u32, 1, 65535, 0x7fff_fffe, 0x7fff_ffff]) } else { t.below(0x8000_0000) as u32 }),
+                        4 => (5, if t.bool() { *t.pick(&[16384u32, 16385, (1 << 24) - 2, (1 << 24) - 1]) } else { 16384 + t.below((1 << 24) - 16384) as u32 }),
                         5 => (6, t.u32()),
                         6 => (8, t.below(2) as u32),
                         7 => (0x7f00 + t.below(100) as u16, t.u32()),
